@@ -97,6 +97,10 @@ Lemma known_plain_routes :
   forallb (fun n => match c10_lookup n c10_routes with Some HPlain => true | _ => false end) c10_known_plain_ops = true.
 Proof. vm_compute. reflexivity. Qed.
 
+Lemma known_gridless_routes :
+  forallb (fun n => match c10_lookup n c10_routes with Some HInit => true | _ => false end) c10_known_gridless_ops = true.
+Proof. vm_compute. reflexivity. Qed.
+
 (* non-vacuity *)
 Definition ex_sz : c10_sizes := fun f => if f =? 0 then (6, 12, 8) else (4, 5, 2).
 Definition ex_v : c10_val := {| v_ux := true; v_grid := Some (0, 0); v_dims := [(3, 3); (2, 8)] |}.
